@@ -33,12 +33,19 @@ func Seed(seed int64) {
 	}
 }
 
+// Bounded makes every draw a deviation-bounded choice (answer 0 is the default, any other answer costs one deviation)
+// instead of a full enumeration: for executions with many draws.
+var Bounded bool
+
 func Intn(n int) int {
 	if n <= 0 {
 		panic("invalid argument to Intn")
 	}
 	if on() {
 		Draws++
+		if Bounded {
+			return mc.Cur.Dev("rand", n)
+		}
 		return mc.Cur.Any("rand", n)
 	}
 	return rand.Intn(n)
